@@ -1,0 +1,157 @@
+//go:build verif
+
+package fasthttp
+
+// C12: per-call accounting of the concurrency, open-connection and per-IP counters. Checked by /verif/gocv
+// (comment-only; compiled to nothing). The counters are atomics or live behind perIPConnCounter.lock; what is proved
+// here is that every function adds and removes in matched pairs, so the totals return to zero once every connection
+// has been closed or hijacked and released. (That no more than the limit are served at once follows from the
+// worker-pool bound, C13, for Serve and from the test in tryAcquireConcurrency for ServeConn.)
+
+// tryAcquireConcurrency: true exactly when the incremented count is within the limit; a refused call takes its
+// increment back exactly once.
+//@ func Server.tryAcquireConcurrency results ok
+//@   property C12
+//@   mode skeleton
+//@   ghost added int = 0
+//@   ghost seen int = 0
+//@   ghost released int = 0
+//@   ghost limit int = 0
+//@   on call atomic.Uint32.Add(_, d) -> v:
+//@     nohavoc
+//@     effect added = added + d; seen = v
+//@   on call Server.getConcurrency -> n:
+//@     nohavoc
+//@     effect limit = n
+//@   on call Server.releaseConcurrency:
+//@     nohavoc
+//@     effect released = released + 1
+//@   end
+//@   ensures[one-increment] added == 1
+//@   ensures[within-limit-iff-accepted] ok == (seen <= limit)
+//@   ensures[refusal-gives-back] released == (ok ? 0 : 1)
+
+// serveConnCleanup: one open-connection decrement, and the concurrency slot exactly when this path counted it.
+//@ func Server.serveConnCleanup
+//@   property C12
+//@   mode skeleton
+//@   ghost openDelta int = 0
+//@   ghost released int = 0
+//@   on call atomic.Int32.Add(_, d) -> v:
+//@     nohavoc
+//@     effect openDelta = openDelta + d
+//@   on call Server.releaseConcurrency:
+//@     nohavoc
+//@     effect released = released + 1
+//@   end
+//@   ensures[open-decremented-once] openDelta == -1
+//@   ensures[slot-released-iff-counted] released == (countConcurrency ? 1 : 0)
+
+// wrapPerIPConn: an address over its limit is unregistered again, answered and closed; an accepted connection stays
+// registered exactly once and is wrapped so that closing it unregisters it.
+//@ func wrapPerIPConn results r
+//@   property C12
+//@   mode skeleton
+//@   stable s.MaxConnsPerIP
+//@   ghost reg int = 0
+//@   ghost unreg int = 0
+//@   ghost count int = 0
+//@   ghost wrapped bool = false
+//@   ghost closed int = 0
+//@   ghost answered bool = false
+//@   on call perIPConnCounter.Register -> n:
+//@     nohavoc
+//@     effect reg = reg + 1; count = n
+//@   on call perIPConnCounter.Unregister:
+//@     nohavoc
+//@     effect unreg = unreg + 1
+//@   on call acquirePerIPConn -> w:
+//@     nohavoc
+//@     requires[registered-and-within-limit] reg == 1 && unreg == 0 && count <= s.MaxConnsPerIP
+//@     effect wrapped = true
+//@     ensures w != nil
+//@   on call Server.writeFastError:
+//@     nohavoc
+//@     effect answered = true
+//@   on call net.Conn.Close:
+//@     nohavoc
+//@     effect closed = closed + 1
+//@   end
+//@   ensures[over-limit-refused] reg == 1 && count > s.MaxConnsPerIP ==> r == nil && unreg == 1 && answered && closed == 1
+//@   ensures[accepted-stays-registered-once] wrapped ==> reg == 1 && unreg == 0 && closed == 0
+//@   ensures[balanced-when-refused] r == nil ==> reg == unreg
+
+// perIPConn.Close / perIPTLSConn.Close: the address is unregistered exactly once per wrapped connection, however
+// often Close is called (the inner connection is taken out under the wrapper's lock).
+//@ monitor perIPConn lock
+//@   property C12
+//@   protects Conn
+
+//@ func perIPConn.Close results err
+//@   property C12
+//@   mode skeleton
+//@   ghost unreg int = 0
+//@   ghost innerClosed int = 0
+//@   on call net.Conn.Close:
+//@     nohavoc
+//@     effect innerClosed = innerClosed + 1
+//@   on call perIPConnCounter.Unregister:
+//@     nohavoc
+//@     requires[after-inner-close] innerClosed == 1
+//@     effect unreg = unreg + 1
+//@   on call sync.Pool.Put:
+//@     nohavoc
+//@   end
+//@   ensures[unregistered-iff-was-open] unreg == (cc != nil ? 1 : 0) && innerClosed == unreg
+
+//@ monitor perIPTLSConn lock
+//@   property C12
+//@   protects Conn
+
+//@ func perIPTLSConn.Close results err
+//@   property C12
+//@   mode skeleton
+//@   ghost unreg int = 0
+//@   ghost innerClosed int = 0
+//@   on call tls.Conn.Close:
+//@     nohavoc
+//@     effect innerClosed = innerClosed + 1
+//@   on call perIPConnCounter.Unregister:
+//@     nohavoc
+//@     requires[after-inner-close] innerClosed == 1
+//@     effect unreg = unreg + 1
+//@   on call sync.Pool.Put:
+//@     nohavoc
+//@   end
+//@   ensures[unregistered-iff-was-open] unreg == (cc != nil ? 1 : 0) && innerClosed == unreg
+
+// Server.Serve, accept loop: every accepted connection is counted open once and either handed to the worker pool
+// (which serves it through serveConn, whose cleanup decrements again) or, when the pool is at its bound, uncounted
+// again, answered with 503, closed and reported Closed.
+//@ func Server.Serve results err
+//@   property C12
+//@   mode skeleton
+//@   ghost openDelta int = 0
+//@   ghost handed bool = false
+//@   ghost answered bool = false
+//@   ghost closed int = 0
+//@   ghost last int = -1
+//@   on call atomic.Int32.Add(_, d) -> v:
+//@     nohavoc
+//@     effect openDelta = openDelta + d
+//@   on call workerPool.Serve -> ok:
+//@     requires[counted-before-handing-over] openDelta == 1
+//@     effect handed = ok
+//@   on call Server.writeFastError:
+//@     nohavoc
+//@     effect answered = true
+//@   on call net.Conn.Close:
+//@     nohavoc
+//@     effect closed = closed + 1
+//@   on call Server.setState(_, _, x):
+//@     nohavoc
+//@     effect last = x
+//@   end
+//@   loop 1:
+//@     iter openDelta = 0; handed = false; answered = false; closed = 0; last = -1
+//@     atend[handed-or-refused] handed ? (openDelta == 1 && closed == 0) : (openDelta == 0 && answered && closed == 1 && last == StateClosed)
